@@ -167,6 +167,24 @@ static int c05_grid(Ctx &ctx) {
 
 #ifndef VF_NO_RC
 static Bytes gen_any_setting(Ctx &ctx, std::string &src, bool huge) {
+  if (g::coin(1, 12)) {
+    // a valid setting followed by text the methods ignore, long enough to run past the 384-byte output field, with
+    // one forbidden byte placed anywhere in it - in particular beyond offset 384: the character rule covers the
+    // whole setting, however long
+    src = "long-tail-badchar";
+    g::SOpts o;
+    o.cheap = true;
+    Method m = g::oneof<Method>({M_DES, M_MD5, M_SHA256, M_SHA512, M_SHA1, M_SUNMD5, M_NT, M_BSDI, M_BF_B, M_YESCRYPT, M_SCRYPT});
+    Bytes s = g::valid_setting(m, o).s;
+    if (m != M_DES && m != M_BSDI && (s.empty() || s.back() != '$')) s += "$";
+    size_t total = (size_t)g::oneof<int>({200, 383, 384, 385, 386, 400, 511, 600, 1000});
+    while (s.size() < total) s.push_back(g::PWSAFE_NODOLLAR[g::pick(0, (long long)sizeof(g::PWSAFE_NODOLLAR) - 2)]);
+    static const unsigned char BAD[] = {':', ';', '*', '!', '\\', ' ', '\t', '\n', 0x7f, 0x80, 0xff, 0x01, 0x1f};
+    size_t lo = s.size() > 20 ? 20 : 0;
+    size_t at = g::coin(2, 3) && s.size() > 384 ? (size_t)g::pick(384, (long long)s.size() - 1) : (size_t)g::pick((long long)lo, (long long)s.size() - 1);
+    s[at] = (char)BAD[g::pick(0, (long long)sizeof BAD - 1)];
+    return s;
+  }
   int k = g::wpick({5, 5, 3, 2});
   g::SOpts o;
   o.cheap = true;
